@@ -9,7 +9,13 @@ where
 {
     if let Some(prev) = maybe_prev {
         if event.is_subject == prev.is_subject {
-            event.set_in_out(!prev.is_in_out(), prev.is_other_in_out());
+            if prev.is_vertical() {
+                // The event starts on a vertical segment of its own polygon and lies to the right
+                // of it, i.e. on the side that counts as "below" a vertical segment.
+                event.set_in_out(prev.is_in_out(), prev.is_other_in_out());
+            } else {
+                event.set_in_out(!prev.is_in_out(), prev.is_other_in_out());
+            }
         } else if prev.is_vertical() {
             event.set_in_out(!prev.is_other_in_out(), !prev.is_in_out());
         } else {
